@@ -442,6 +442,20 @@ func (x *exec) writerBlockedOn(ip string) bool {
 	return false
 }
 
+// pendingBind: the oldest ChannelBind the client has sent and not yet had answered, for a number it has never
+// seen confirmed (a first bind, not a refresh).
+func (x *exec) pendingBind() *preq {
+	for _, p := range x.out {
+		if p.method == wire.ChannelBind {
+			if b := x.m.bind[p.peer]; b != nil && b.n == p.n && !b.confirmed {
+				return p
+			}
+		}
+	}
+
+	return nil
+}
+
 func (x *exec) lowestConfirmed() (uint16, string, bool) {
 	best, who, ok := uint16(0), "", false
 	for a, b := range x.m.bind {
@@ -839,12 +853,21 @@ func (x *exec) startWrite(peer string) {
 	// The application owns the address it passes: like many callers this one keeps a single net.UDPAddr and
 	// overwrites it before every WriteTo - whenever no earlier WriteTo is still using it (changing an argument
 	// under a call in progress would be the application's own data race).
-	arg := &net.UDPAddr{IP: append(net.IP(nil), w.addr.IP...), Port: w.addr.Port}
+	// ... and it names an IPv4 peer now in the 4-byte, now in the 16-byte form of net.IP (what net.ParseIP and
+	// ResolveUDPAddr return, and what ReadFrom returns, differ): the same peer either way.
+	ip := w.addr.IP
+	if v4 := ip.To4(); v4 != nil {
+		ip = v4
+		if x.nw%2 == 0 {
+			ip = v4.To16()
+		}
+	}
+	arg := &net.UDPAddr{IP: append(net.IP(nil), ip...), Port: w.addr.Port}
 	if idle {
 		if x.scratch == nil {
 			x.scratch = &net.UDPAddr{}
 		}
-		x.scratch.IP, x.scratch.Port = append(x.scratch.IP[:0], w.addr.IP...), w.addr.Port
+		x.scratch.IP, x.scratch.Port = append(x.scratch.IP[:0], ip...), w.addr.Port
 		arg = x.scratch
 	}
 	go func() {
@@ -1037,6 +1060,20 @@ func (x *exec) apply(ev string) { //nolint:gocognit,cyclop
 				x.m.queue = append(x.m.queue, qent{payload, who})
 			}
 			x.inbound("chandata-bound-channel", wire.ChannelData(n, []byte(payload), true))
+		case "chan:requested":
+			// The server binds when it processes the ChannelBind and relays on the number from then on - which is
+			// before the client has seen (or will ever see, if it is lost) the success response. The client knows
+			// which peer it asked the number for: the payload is that peer's.
+			p := x.pendingBind()
+			if p == nil {
+				x.fail("harness:no-outstanding-channelbind", "")
+
+				return
+			}
+			if !x.m.closed() {
+				x.m.queue = append(x.m.queue, qent{payload, p.peer})
+			}
+			x.inbound("chandata-requested-channel", wire.ChannelData(p.n, []byte(payload), true))
 		case "chan:unbound":
 			// not delivered: the model queue is unchanged
 			x.inbound("chandata-unbound-channel", wire.ChannelData(unboundChan, []byte(payload), true))
